@@ -145,6 +145,7 @@ def build(reg, src):
     reg.bounded.append(dict(check='failed-update', tool='native execution with one injected OSError in the writer', bound='one file, one fault, three follow-up operations', result='see rows'))
     reg.replays.append((r'update_file_futures_and_memory#release\.GL', rp.replay_late_load_accounting))
     reg.replays.append((r'update_file_futures_and_memory#(call|release|assert)', rp.replay_late_load_under_pressure))
+    rp.replay_torn_read.demonstrates_known_finding = r'submit-write'      # its hit on the unchanged tree IS the recorded finding (thorough tier)
     reg.replays.append((r'submit-write\.no-load-of-the-file-in-flight|#release\.GLoad', rp.replay_torn_read))
     reg.replays.append((r'unload_file#release|#release\.GW', rp.replay_unload_during_write))
     reg.replays.append((r'update_file_futures_and_memory#assert', rp.replay_unload_during_load))
